@@ -94,6 +94,7 @@ class SimTerm:
         self.max_wait = 0.0
         self.log = []
         self._t_reset = 0.0
+        self.raise_in_select = None  # exception (instance) to raise from the next select() call: a signal while waiting
 
     # -- configuration ---------------------------------------------------------------
     def reset(self, profile=None, zero_clock=False):
@@ -110,6 +111,7 @@ class SimTerm:
         self.max_wait = 0.0
         self.log = []
         self._t_reset = self.now
+        self.raise_in_select = None
 
     # -- clock --------------------------------------------------------------------------
     def monotonic(self):
@@ -204,6 +206,10 @@ class SimTerm:
     # -- the patched select --------------------------------------------------------------
     def select(self, r, w, x, timeout=None):
         self.selects += 1
+        if self.raise_in_select is not None:
+            exc, self.raise_in_select = self.raise_in_select, None
+            self._handle_requests()  # the request has reached the terminal; the signal lands while waiting for the reply
+            raise exc
         if self.now - self._t_reset > 120.0 or self.selects > 200000:
             # minutes of virtual time / an endless poll loop inside one library call: it never gives up
             raise UnboundedWait(f"the call keeps waiting ({self.now - self._t_reset:.1f}s of virtual time, "
